@@ -72,13 +72,20 @@ func (m *miniSvc) start() {
 
 // quiesce takes scheduler decisions until nothing is enabled.
 func (m *miniSvc) quiesce() bool {
-	for i := 0; i < 20000; i++ {
+	// (the bound is a safety net against a harness that never comes to
+	// rest, far above what a round needs: a round that moves a collection
+	// of a thousand values publishes thousands of events, each with several
+	// yield points - 20000 steps were not enough for those at the thorough
+	// tier, and the round was then judged as if it had come to rest)
+	for i := 0; i < 1000000; i++ {
 		if !m.sim.Decide(m.filter) {
 			return true
 		}
 		m.steps++
 	}
-	return false
+	// never judge a round that has not come to rest: this is trouble of the
+	// simulator (exit 2), not a verdict about the library
+	panic("simulator: miniSvc.quiesce did not come to rest within 1000000 steps")
 }
 
 // request injects a request and returns its reply inbox.
@@ -109,4 +116,13 @@ func (m *miniSvc) shutdown() bool {
 	})
 	m.quiesce()
 	return t.IsDone() && m.serve.IsDone()
+}
+
+// stepBound ends a run whose driving loop does not come to rest: a bound
+// that is reached is trouble of the simulator (the worker process dies with
+// this message, exit 2), never a state to judge the library in.
+func stepBound(i, n int, what string) {
+	if i >= n {
+		panic("simulator: " + what + " did not come to rest within " + strconv.Itoa(n) + " steps")
+	}
 }
